@@ -1,5 +1,6 @@
 import Rip.Model.ToolLoop
 import Rip.Model.Proto
+import Rip.Gen.Consts
 namespace Rip.Driver.C16
 open Rip.Proto Rip.ToolLoop
 
@@ -77,7 +78,8 @@ def handleL (rest : String) : String :=
       pure (st, msg, vm, tc, rs)) rest with
   | none => "bad-case"
   | some (st, msg, vm, tc, rs) =>
-    let out := agentLoop { stateless := st, followupMsg := msg, enf := tc.enforcement, valid := validOf vm } rs
+    let out := agentLoop { stateless := st, followupMsg := msg, enf := tc.enforcement, valid := validOf vm,
+                           maxCalls := Rip.Gen.Consts.provider_openresponses_DEFAULT_MAX_TOOL_CALLS } rs
     s!"reason={out.reason} " ++ " | ".intercalate (out.rounds.map showRound)
 
 end Rip.Driver.C16
